@@ -136,7 +136,7 @@ class Gen:
         k = r.random()
         if depth >= 3 or k < 0.45:
             return r.choice([0, 1, -1, 3.5, 1e10, True, False, None, '', 'str', 'with "quotes"', 'uni\u00e9', 'a/b', 12345678901234567,
-                             '---', '[TestA - 1]', 'line\nbreak'])
+                             '---', '[TestA - 1]', 'line\nbreak', '<p>fish & chips</p>', 'double-encoded {"h":"\\u003cb\\u003e \\u0026"}', 'C:\\users\\u0026co'])
         if k < 0.75:
             keys = r.sample(['a', 'b', 'c', 'id', 'name', 'k.dot', 'sp ace', '\u00fc', 'z', 'created', 'n'], r.randint(0, 4))
             return {kk: self.json_value(depth + 1) for kk in keys}
